@@ -175,10 +175,20 @@ def rules(ctx, tier):
 
 def is_incremental_update(ctx, w):
     """`field = field +/- x` (in either MIR shape): an adjustment of the counter, not a recomputation."""
+    from ..prov import binops_in
     sl = Slicer(ctx.world, w.body, follow_local=False)
     for l in sl.leaves_of_rv(w.rv, w.bb):
         if l[0] == "binop" and l[1].startswith(("Add", "Sub")):
-            return True
+            # ... of the field itself: one operand reads the very field that is written (a local running total that
+            # is stored into the field afterwards is a recomputation)
+            ops_here = [(None, w.rv["op"], w.rv["a"], w.rv["b"])] if w.rv["k"] == "binop" else binops_in(w.body, l[2])
+            for (_lhs, op, a, b_) in ops_here:
+                if not op.startswith(("Add", "Sub")):
+                    continue
+                for o in (a, b_):
+                    for x in sl.leaves_of_operand(o):
+                        if x[0] in ("param", "xparam") and x[2] and x[2][-1] == w.field[2]:
+                            return True
     return False
 
 
@@ -549,7 +559,15 @@ def replay_skips(ctx, r):
             if not any(True for _ in work):
                 work.setdefault(id(b0), (b0, []))[1].extend(cbsites)
         else:
-            work.setdefault(id(b0), (b0, []))[1].extend(cbsites)
+            # judged on the flat view: the skip decision may sit in a private helper (`disposition(checkpoint, version)`
+            # answering with an enum the loop matches on)
+            V = ctx.flat(b0, stop=tuple(sorted(cb.path for cb in replay_callbacks(ctx))))
+            occ = [fs for c in cbsites for fs in ctx.flat_sites_of(V, c)
+                   if fs.kind == "call" and not V.blocks[fs.bb].get("cleanup")]
+            if occ:
+                work.setdefault(id(V), (V, []))[1].extend(occ)
+            else:
+                work.setdefault(id(b0), (b0, []))[1].extend(cbsites)
     for (b, cbsites) in work.values():
         sl = Slicer(ctx.world, b)
         for c in cbsites:
